@@ -139,7 +139,11 @@ def targets(fine, ts):
         }
         return t
     l_check, l_run = run_once_lines()
-    t = {BE_PATH: {"_run_once": {l_check, l_run}}, ATM_PATH: {"do_cancel_handles": {second_pop_line()}}}
+    try:
+        pops = {second_pop_line()}
+    except ValueError:
+        pops = set()        # the tie is reported broken by structure_check(); keep exploring
+    t = {BE_PATH: {"_run_once": {l_check, l_run}}, ATM_PATH: {"do_cancel_handles": pops}}
     if ts:
         t[BE_PATH]["call_at"] = {call_at_return_line()}
     return t
